@@ -58,12 +58,12 @@ def run_vx(unit_list, units, workdir):
                     it['text_out'] = True
                 if 'vec_receivers' in e.opts:
                     it['vec_receivers'] = e.opts['vec_receivers'].split(',')
-                for k in ('into_as', 'slice_before', 'ret_name', 'slice_from', 'slice_block', 'frag_name', 'frag_params', 'frag_ret'):
+                for k in ('into_as', 'slice_before', 'ret_name', 'slice_from', 'slice_block', 'frag_name', 'frag_params', 'frag_ret', 'frag_generics'):
                     if k in e.opts:
                         it[k] = e.opts[k]
                 if 'opaque_fields' in e.opts:
                     it['opaque_fields'] = e.opts['opaque_fields'].split(',')
-                for k in ('custom_iters', 'box_receivers', 'opaque_calls', 'eager_receivers', 'inline_closures', 'string_vars'):
+                for k in ('custom_iters', 'box_receivers', 'shared_cells', 'opaque_calls', 'eager_receivers', 'inline_closures', 'string_vars'):
                     if k in e.opts:
                         it[k] = [x.strip() for x in e.opts[k].split(',')]
                 bl = (shapes().get(item_key(e)) or {}).get('loops')
@@ -223,6 +223,11 @@ def weave(item, ext):
                 cl = ext.get('loop_sigs') or []
                 if arg < len(bl) and arg < len(cl) and bl[arg] != cl[arg]:
                     REANCHORED.append("%s: loop %d is not the loop its invariant was written for (now %r, was %r)" % (what, arg, cl[arg], bl[arg]))
+            if kind == 'bot':
+                # a closure body turned loop body may end in an expression statement without `;` (`v[i] = true`)
+                before = re.sub(r'/\*@.*?@\*/', '', text[:text.find(mk)][-400:]).rstrip()
+                if before and before[-1] not in ';{}':
+                    body = ';\n' + body
             text = text.replace(mk, '\n' + body + '\n', 1)
         elif kind == 'closure':
             b = '/*@CLS:%d:BEGIN@*/' % arg
